@@ -3906,13 +3906,14 @@ type info_style =
 | IDefault
 | IInline
 | IHidden
+| IInlineRight
 
 type cfg1 = { c_w : nat; c_h0 : nat; c_layout : layout; c_info : info_style;
               c_sep : bool; c_header : str list; c_hlines : str list;
               c_multi0 : z }
 
-type view = { v_query : str; v_matches : (nat * str) list; v_total : 
-              nat; v_cy : nat; v_off0 : nat; v_sel : nat list }
+type view = { v_prompt : str; v_query : str; v_matches : (nat * str) list;
+              v_total : nat; v_cy : nat; v_off0 : nat; v_sel : nat list }
 
 type row = z list
 
@@ -3946,6 +3947,10 @@ val nheader : cfg1 -> nat
 
 val max_items : cfg1 -> nat
 
+val inline_right_col : cfg1 -> view -> nat
+
+val info_shown : cfg1 -> view -> str
+
 val prompt_row_text : cfg1 -> view -> row
 
 val info_row_text : cfg1 -> view -> row
@@ -3973,6 +3978,14 @@ val rstrip_aux : str -> str * bool
 val rstrip : str -> str
 
 val row_eqb : row -> row -> bool
+
+val prefixb0 : str -> str -> bool
+
+val containsb : str -> str -> bool
+
+val counter_row : cfg1 -> nat
+
+val info_visibleb : cfg1 -> view -> row list -> bool
 
 val chk : z -> bool -> z list
 
@@ -4015,8 +4028,8 @@ val il_none : iline
 
 val il_blank : iline
 
-type term1 = { t_query : str; t_matches : (nat * str) list; t_total : 
-               nat; t_cy0 : nat; t_off : nat; t_sel0 : nat list;
+type term1 = { t_prompt : str; t_query : str; t_matches : (nat * str) list;
+               t_total : nat; t_cy0 : nat; t_off : nat; t_sel0 : nat list;
                t_screen : row list; t_prev : iline list }
 
 val t_view : term1 -> view
@@ -4066,8 +4079,8 @@ val is_inline : cfg1 -> bool
 
 val handle0 : cfg1 -> reqs -> term1 -> term1
 
-type upd = { u_query0 : str; u_matches : (nat * str) list; u_total : 
-             nat; u_cy : nat; u_sel0 : nat list; u_reqs : reqs }
+type upd = { u_prompt : str; u_query0 : str; u_matches : (nat * str) list;
+             u_total : nat; u_cy : nat; u_sel0 : nat list; u_reqs : reqs }
 
 val step3 : cfg1 -> term1 -> upd -> term1
 
